@@ -390,8 +390,9 @@ where
                     y.with_rounding()
                 }
                 5 => {
-                    let s = format!("{:?}", x.repr().significand());
-                    let _ = s;
+                    if x.precision() != 0 && x.digits() > x.precision() {
+                        return env.skip();
+                    }
                     let (sig, e) = x.clone().into_repr().into_parts();
                     FBig::from_repr(Repr::new(sig, e), x.context())
                 }
@@ -445,6 +446,10 @@ where
         "intoparts" => {
             // through Repr and back
             if !ww.p[a].repr().is_finite() {
+                return env.skip();
+            }
+            // from_repr documents digits <= precision as a precondition (checked in debug builds only)
+            if ww.p[a].precision() != 0 && ww.p[a].digits() > ww.p[a].precision() {
                 return env.skip();
             }
             let ctx = ww.p[a].context();
